@@ -9,7 +9,6 @@ import (
 	"verifharness/pkg/h"
 
 	"github.com/dunglas/mercure"
-	"go.uber.org/zap"
 )
 
 func init() { register("sublist", "C05", runSubList) }
@@ -96,7 +95,7 @@ func runSfCase(c *h.Ctx, r *h.Report, o *gen.Oracle, cs sfCase) {
 		impl := "ok"
 		switch op.Op {
 		case "add":
-			s := mercure.NewLocalSubscriber("", zap.NewNop(), tss)
+			s := mercure.NewLocalSubscriber("", zapNop(), tss)
 			s.SetTopics(op.Sels, op.Allowed)
 			subs[op.Label] = s
 			lab[s] = op.Label
